@@ -16,6 +16,12 @@
      outages_r b rss          the waits of successive outages on one StreamManager, one list
                               of oracle values (jitter draws) per outage
      stream_manager_backoff   mkBackoff false 0 0 0 0: what StreamManager.resume() declares
+     run_ops b ops            ONE backoff value driven through OQuery n r (durationForAttempt(n)),
+                              OWait r (duration()) and OReset (reset()) in any order: the value
+                              afterwards and the delay of every call that returns one
+     ops_spec b a ops         the same delays written with the ORIGINAL value b and an explicit
+                              counter a: a query is dur_for_attempt b n r, a wait dur_for_attempt
+                              b a r (then a+1), a reset sets a to 0 (Proofs/BackoffP.v)
      float_image x x'         x' may be what float64 arithmetic makes of the real value x:
                               x' = x when x < 2^53, x' >= 2^52 otherwise (+Inf included)
 
@@ -99,6 +105,25 @@ Theorem C19_seq_bounded : forall b rs,
              0 <= ns <= cap (set_default b) * millisecond /\ ns < 2 ^ 63)
           (seq 0 (length rs)) (snd (dur_seq b rs)).
 Proof. intros b rs. exact (dur_seq_within rs b). Qed.
+
+(* History independence of the per-attempt query: on a value that has been through ANY
+   sequence of queries, waits and resets - capped answers included, attempt numbers in
+   any order - durationForAttempt(n) answers what it answers on the untouched value: it is a
+   function of n (and of the random source) alone.  No hypothesis.  Hence the formula after
+   any history; and the delays of a whole mixed sequence are the queries at the asked
+   attempt numbers and the waits counted from the last reset. *)
+Theorem C19_query_history_independent : forall b ops n r,
+  snd (dur_for_attempt (fst (run_ops b ops)) n r) = snd (dur_for_attempt b n r).
+Proof. exact query_history_independent. Qed.
+
+Theorem C19_query_after_history : forall b ops n r,
+  no_jitter b = true -> bounds (set_default b) -> 0 <= n ->
+  snd (dur_for_attempt (fst (run_ops b ops)) n r) = Dur (expo (set_default b) n * millisecond).
+Proof. exact query_after_history. Qed.
+
+Theorem C19_ops_are_queries : forall b ops,
+  snd (run_ops b ops) = ops_spec b (attempt b) ops.
+Proof. exact run_ops_spec. Qed.
 
 (* Successive outages handled by one StreamManager (each retry loop runs on a fresh
    back-off value, i.e. after reset): whatever the numbers of failed attempts of the
@@ -255,6 +280,10 @@ Example C19_example :
   positive_params (set_default stream_manager_backoff) /\
   outages_r (mkBackoff false 20 2 180000 7) [[5000000; 39999999; 40000000]; [19999999; 123456789]]
   = [[Dur 5000000; Dur 39999999; Dur 40000000]; [Dur 19999999; Dur 3456789]] /\
+  (* one value: a capped query (attempt 30), then attempt 0, two waits, attempt 1, reset, a wait *)
+  snd (run_ops (fresh true 20 2 180000)
+         [OQuery 30 0; OQuery 0 0; OWait 0; OWait 0; OQuery 1 0; OReset; OWait 0])
+  = [Dur 180000000000; Dur 20000000; Dur 20000000; Dur 40000000; Dur 40000000; Dur 20000000] /\
   (* float images: 2^53 + 1 may become 2^53, 3 * 7^30 may become +Inf or lose its low bits *)
   float_image (2 ^ 53 + 1) (2 ^ 53) /\ float_image (3 * 7 ^ 30) (2 ^ 70) /\ float_image 180000 180000.
 Proof.
@@ -263,6 +292,7 @@ Proof.
   split; [repeat split; try reflexivity; cbn; discriminate|].
   split; [exact huge_cap_saturates|].
   split; [exact (bounds_positive _ (bounds_all_zero false 0))|].
+  split; [vm_compute; reflexivity|].
   split; [vm_compute; reflexivity|].
   unfold float_image.
   repeat split; intros H; vm_compute in H |- *; try reflexivity; try discriminate;
@@ -277,6 +307,9 @@ Print Assumptions C19_formula_seq.
 Print Assumptions C19_formula_seq_after_reset.
 Print Assumptions C19_outages_restart.
 Print Assumptions C19_seq_bounded.
+Print Assumptions C19_query_history_independent.
+Print Assumptions C19_query_after_history.
+Print Assumptions C19_ops_are_queries.
 Print Assumptions C19_outages_restart_any.
 Print Assumptions C19_outages_bounded.
 Print Assumptions C19_stream_manager_waits.
